@@ -55,9 +55,9 @@ def main(tier, args):
                    "week mask: every enabled alarm must be armed for the earliest matching instant under the calendar in force, its TimerEvent interval and loop timer record >= the wall distance, exactly "
                    "one loop timer record per enabled alarm and none for a disabled one"
                    % ("{1,23296,43200,86398} and 12 more values on a stride-7 grid" if quick else "every 10-minute value, every hour +-1 and 16 boundary values at every second", "seconds-of-day {0,1,43200,86398,86399} x 40 masks (all with <=2 or >=6 days set + 3 patterns)" if quick else "16 boundary seconds-of-day x all 128 masks", NSETS, NFAR, depth, len(FIRE)),
-              assumptions=["cron: %d further list/step/AND expressions are in the case table but NOT evaluated by default because the bundled ccronexpr answers them wrongly on the unchanged tree "
-                           "(multi-valued seconds kept after a minute/hour roll-over; same day NUMBER in a later month taken for 'day unchanged'; day 29..31 overflowing when the month is set): "
-                           "C20_CRON_KNOWN_DEFECTS=1 evaluates them; day-of-month and day-of-week both restricted is read as a conjunction (what ccronexpr implements)" % NDEFECT,
+              assumptions=["cron: day-of-month and day-of-week both restricted is read as a conjunction (what ccronexpr implements); %d expressions left out by C20_CRON_KNOWN_DEFECTS=0 "
+                           "(default: none left out; the 8 expressions that exposed the ccronexpr defects 'lower field kept after a roll-over', 'same day number in a later month', "
+                           "'day 29..31 overflows when the month is set' are evaluated)" % NDEFECT,
                            "initialize() with the SAME configuration keeps what already fired (a 5 ms early wake-up followed by disable/initialize/enable must not fire the same instant again); "
                            "cleanup() forgets it (both outcomes accepted afterwards); the time-zone toggle is treated like a wall-clock step (unknown to the alarm until enable()/refresh())",
                            "instants within one week + 14 h of 2^32 are excluded; so are inputs whose local time now+tz is negative",
